@@ -34,7 +34,14 @@ MANIFEST = dict(
           "and unyt_array(sequence) is run as a merging call; per path z3 decides 'returned normally => commensurable or documented exception "
           "(==/!= constant answer; bare operand all zero on this path; ordering comparison with a dimensionless operand)' and 'raised "
           "=> every operand term and unit unchanged'. Discrete axes (operation, form, operand kind, dimension pair, shape <= (2,2)) "
-          "are enumerated; any model is replayed on plain unyt."),
+          "are enumerated; any model is replayed on plain unyt. Two further discrete axes: CALL SPELLING - every array-function call shape, "
+          "the conversion entry points and the constructor are also run with their arguments handed over in the other ways the documented "
+          "signature permits (optional parameters positionally / by keyword, operands by keyword, tuple for list, explicit defaults; 74 "
+          "spellings); CALL HISTORY - the call under test is preceded, in the same path and on units of the same registry, by earlier "
+          "calls (an ordering comparison in both operand orders, ==, a free key, a logical key, the zero exemption, the same key / call "
+          "shape on the unit with itself, with a commensurable unit, with a same-spelling unit of another registry, a conversion, a "
+          "merging function), so that anything the library remembers between calls is in place; all obligations of the call under "
+          "test are unchanged."),
     design="DESIGN.md section 4 C01",
     technique="symbolic execution of the real Python code over z3 real terms; SMT obligations per path; counterexample replay")
 EXPLANATION = (
@@ -51,7 +58,15 @@ EXPLANATION = (
     "to agree' are solver cases, not samples. A python sequence operand is described to the oracle member by member (bare number / "
     "quantity of dimension D0 / D1): where bare values are read in the receiving array's unit (assignment-like calls) only the members "
     "that carry units are compared, elsewhere a bare member counts as dimensionless; after a raise the sequence must still hold the "
-    "same member objects and every member quantity its element term and unit."
+    "same member objects and every member quantity its element term and unit. "
+    "The verdict must not depend on how the arguments are spelled nor on what was called before: each array-function call shape, "
+    ".to()/in_units/to_value/convert_to_units and unyt_array(seq) is re-run in every other spelling NumPy's / unyt's documented "
+    "signature allows (the oracle - which two operands are merged - is the same for all spellings), and ufunc keys, array functions, "
+    "__setitem__ and the conversions are re-run after earlier calls made in the same path on units of the same registry (equal and "
+    "hash-equal Unit objects; the engine restores module-level state only between paths). The earlier calls are chosen so that "
+    "their verdict differs from that of the call under test on the same unit pair (ordering comparisons and free keys accept what "
+    "add/maximum/... must refuse) or so that they succeed on a pair that is spelled the same; their element values are pinned "
+    "numerals, the unit scales stay symbols, and the obligations of the call under test are the unchanged ones above."
 )
 BOUNDS = {
     "quick": "18 commensurability-requiring binary keys of _ufunc_registry x forms {call, operator, out=quantity, out=ndarray, outer, at, "
@@ -77,13 +92,33 @@ BOUNDS = {
              "of every array-function call shape that accepts the shape, as right operand of 9 ufunc keys (all forms; the kinds unyt's "
              "coercion accepts: add / less / equal in call and operator form), and as the argument of unyt_array(seq) / "
              "unyt_array(seq, registry=); to/in_units/to_value/convert_to_units with string and Unit targets and "
-             "Unit +,-,+=,-= over every ordered dimension pair; .to() family also onto same-spelling Unit objects of other registries",
+             "Unit +,-,+=,-= over every ordered dimension pair; .to() family also onto same-spelling Unit objects of other registries. "
+             "CALL SPELLINGS: 74 further spellings of the array-function call shapes (e.g. copyto(dst, src, casting, where) with "
+             "casting / where positional, by keyword, in either order, mask as list / all-True array / explicit True; clip a_min= a_max= / "
+             "min= max= / out positional; concatenate axis positional / keyword / None, tuple; select default= ; insert / put / place / "
+             "putmask / searchsorted / isin / intersect1d / linspace ... operands by keyword, trailing optionals positional) x first "
+             "operand {same, other dimension} x 9 second-operand kinds; 2 further spellings of each conversion entry point and 4 of "
+             "the constructor. CALL HISTORY (earlier calls in the same path; element values of the earlier calls pinned, scales "
+             "symbolic): every one of the 18 keys after {less(a, b), multiply(a, b)} on the pairs (unit, dimensionless), (unit, bare), "
+             "(unit, other dimension), (bare, unit) in call / operator form; add, maximum, less after 15 histories {less call, >= "
+             "operator, less swapped, equal, multiply, logical_and, add on the same pair, add with literal 0, add unit+itself, maximum "
+             "with a commensurable unit, .to() swapped, concatenate, add-then-greater, add / .to() with the same spelling at another "
+             "scale} on 7 operand-kind pairs; the in-place keys and maximum on (2,) arrays (call, in-place, at, out=) after the two main "
+             "histories; each array-function call shape after {less on the same pair, the same call on the unit with itself / with a "
+             "commensurable unit / with the same-spelling unit of another scale} on (same, other dimension), (same, dimensionless), "
+             "(same, same spelling other dimension); __setitem__ (5 index forms) after 7 histories on 3 pairs; the 4 conversion entry "
+             "points on 5 unit pairs in 3 spellings, unit / string target, after 5 histories; plus the engine's sampled @after "
+             "variants (another case first, other registry)",
     "thorough": "as quick with all 11 kinds on both sides, every distinct dimension of the registry pairwise (51: 2601 ordered pairs), and "
                 "the shape pairs ((2,),(2,)) in all forms (outer only for the keys whose loops do not branch) and ((),(2,)) in all forms, ((2,2),(2,)) call/operator/in-place/out=, ((2,),(2,2)) call/operator, ((2,2),()) "
                 "call/in-place/at/reduce, ((2,2),(2,2)) call; for the comparison and min/max keys (whose NumPy loops branch per element "
                 "pair) the (2,2) shapes are run with quantity kinds on both sides only; the 23 further sequence kinds with all 18 keys "
                 "(right operand: all forms on ((),seq) and call/operator/in-place/out= on ((2,),seq); left operand: call and operator "
-                "form) and with dimensionless / scaled-dimensionless / bare-array first operands of the array functions",
+                "form) and with dimensionless / scaled-dimensionless / bare-array first operands of the array functions; call spellings x 5 "
+                "first-operand kinds x 16 second-operand kinds; call history: all 18 keys x 15 histories x 20 operand-kind pairs (call, "
+                "operator, out=, outer; (2,) arrays with in-place / at / out= after the two main histories for the in-place keys, maximum, "
+                "less, hypot), array functions x 8 histories x 8 pairs (other spellings after 3 histories on one pair), __setitem__ x 7 "
+                "histories x 7 pairs, conversions x 9 histories x 10 pairs",
 }
 OUTSIDE = ("IEEE rounding/overflow/nan (A1): a path on which NumPy's loop divides by zero is dropped; integer/complex payloads and the "
            "integer-only ufuncs (bitwise_*, shifts, ldexp); power/logaddexp/logaddexp2/logical_xor are classified (no demand) but not "
@@ -102,6 +137,12 @@ OUTSIDE = ("IEEE rounding/overflow/nan (A1): a path on which NumPy's loop divide
            "Sequences: more than three members, nesting deeper than one level, generators / other iterables, object-dtype ndarrays "
            "holding quantities (unyt refuses dtype O, the shimmed library cannot), numpy scalars as bare members (a symbol cannot live "
            "in a np.float64); unyt_array(seq, <unit>) relabels by design and is not judged. "
+           "Call history: histories of at most two earlier calls, taken from the lists in BOUNDS (not every pair of cases); the element "
+           "values of the earlier calls are fixed numerals (their unit scales are symbols), so state that depends on WHICH values an "
+           "earlier call saw is sampled, not decided; state kept per registry identity is reached only by the in-case histories (the "
+           "engine's @after variants build a new registry). Call spellings: the out= / dtype= / casting= parameters of the merging "
+           "functions are only passed as None / default (an out= array is a further operand that the property does not name); "
+           "np.where has positional-only operands (one spelling + list condition). "
            "The shape of the ==/!= constant answer is not checked here (C06/C16).")
 
 NAMES = ["xa", "xb", "xc", "xp", "xt"]
@@ -695,13 +736,88 @@ def shstr(s):
     return "x".join(map(str, s)) or "0"
 
 
-def make_ufunc_case(name, k0, k1, s0, s1, d0, d1, forms=FORMS, group="uf"):
+# ------------------------------------------------------------------------------------------------ call history
+# HISTORY axis: before the call under test, other calls are made IN THE SAME PATH on operands of the same registry (so the Unit
+# objects are equal and hash-equal to those of the call under test; fresh element symbols) - whatever they leave behind in the
+# library (a memo keyed by unit pair / spelling / operation, a cached unit, a flag) is there when the call under test runs. A step
+# is (family, ..., relation): family 'uf' (ufunc name, 'call' | 'op'), 'af' (array-function call shape), 'to' (.to() onto the
+# unit of the second operand), 'setitem' (index form); relation = which operand kinds the earlier call gets, relative to the
+# kinds (k0, k1) of the call under test: 'same' (k0, k1), 'swap' (k1, k0), 'self' (k0, k0), 'comm' (k0, a commensurable
+# partner of k0 in another unit), 'zero' (k0, the literal 0), 'tscale' (k0, the unit of the same SPELLING and dimension with
+# another scale in another registry - used before a call on the same spelling with another dimension). The element values of the
+# earlier calls are pinned numerals (no forks), the unit scales are the symbols of the case. The earlier calls are not judged here (each is judged in its own case); their outcome is
+# only observed (conformance). All obligations of the call under test stay as they are.
+COMM_PARTNER = {"same": "samedim", "samedim": "same", "dimless": "percent", "percent": "dimless"}
+
+
+def hist_id(steps):
+    return "+".join(".".join(st) for st in steps)
+
+
+def _hist_kinds(rel, k0, k1):
+    return {"same": (k0, k1), "swap": (k1, k0), "self": (k0, k0), "comm": (k0, COMM_PARTNER.get(k0, k0)), "zero": (k0, "bscalar"),
+            "tscale": (k0, "twin_scale")}[rel]
+
+
+def run_history(ctx, W, steps, k0, k1):
+    for i, st in enumerate(steps):
+        fam, rel = st[0], st[-1]
+        pk0, pk1 = _hist_kinds(rel, k0, k1)
+        if fam == "af":
+            target = st[1] in AF_TARGET
+            _, fn, shapes = (AF_TARGET if target else AF)[st[1]]
+            s0, s1 = shapes[0]
+        elif fam == "setitem":
+            fn, s1 = SETITEM[st[1]][:2]
+            s0 = SETITEM[st[1]][2] if len(SETITEM[st[1]]) > 2 else (2,)
+        else:
+            s0 = s1 = ()
+        for k in (pk0, pk1):
+            if k in TWIN_KINDS:
+                W.twin_unit(k)  # built outside the warm-up: its scale stays the symbol of the case
+        res = None
+        # the element values of an earlier call are pinned numerals (engine: ctx.warmup, as in the @after variants; the replay
+        # uses the same numerals): no forks inside the earlier call. The unit scales are the symbols of the case. 'zero': the bare
+        # operand is the literal 0 (the zero exemption of the earlier call is taken).
+        with ctx.warmup(f"hist{i}!"):
+            a = W.operand(pk0, shape_of(pk0, s0), "g")
+            b = W.operand(pk1, shape_of(pk1, s1), "h") if rel != "zero" else None
+            x0, x1 = a.value, (b.value if b is not None else 0.0)
+            if fam == "uf":
+                if is_unyt(ctx, x0) or is_unyt(ctx, x1):
+                    pname, pform = st[1], st[2]
+                    if pform == "op" and ctx.symbolic and isinstance(x0, SymReal):
+                        res = xcall(getattr(x1, REFLECTED[pname]), x0)
+                    elif pform == "op":
+                        res = xcall(OPERATOR[pname], x0, x1)
+                    else:
+                        res = xcall(getattr(np, pname), x0, x1)
+            elif fam == "af":
+                if is_unyt(ctx, x0) or is_unyt(ctx, x1):
+                    res = xcall(fn, np, x0.copy() if target else x0, x1)
+            elif fam == "setitem":
+                if is_unyt(ctx, x0):
+                    res = xcall(fn, x0.copy(), x1)
+            elif fam == "to":
+                if is_unyt(ctx, x0) and is_unyt(ctx, x1):
+                    res = xcall(x0.to, x1.units)
+            else:
+                raise KeyError(fam)
+        if res is not None and res[1] is not DOMAIN:
+            if ctx.symbolic and res[0] == "raise" and _artefact(res[1]):
+                raise HarnessError(f"history step {'.'.join(st)}: engine artefact, not unyt raising: {res[1]}")
+            ctx.observe(f"history{i}:{'.'.join(st)}", "ok" if res[0] == "ok" else type(res[1]).__name__)
+
+
+def make_ufunc_case(name, k0, k1, s0, s1, d0, d1, forms=FORMS, group="uf", history=()):
     def h(ctx):
         W = World(ctx, d0, d1)
+        run_history(ctx, W, history, k0, k1)
         run_forms(ctx, W, name, k0, k1, s0, s1, forms)
         W.flush()
-    return Case(f"C01/{group}/{name}/{k0}+{k1}/{shstr(s0)}_{shstr(s1)}", h, bounds="symbolic: elements, scales", budget_s=3000,
-                max_paths=6000, weight=(1 + len(s0) + len(s1)) * (3 if name in ORDERING | EQNE else 1))
+    cid = f"C01/{group}/{name}/{k0}+{k1}/{shstr(s0)}_{shstr(s1)}" + (f"/after-{hist_id(history)}" if history else "")
+    return Case(cid, h, bounds="symbolic: elements, scales" + ("; earlier calls in the same path: " + hist_id(history) if history else ""),
+                budget_s=3000, max_paths=6000, weight=(1 + len(s0) + len(s1)) * (3 if name in ORDERING | EQNE else 1) * (2 if history else 1))
 
 
 # ------------------------------------------------------------------------------------------------ dimension sweep
@@ -835,6 +951,91 @@ AF_KNOWN = {"copyto": L_COPYTO}  # the masked form converts or raises since 3bb2
 AF_K0 = QUANTITY_KINDS + ["barray"]
 AF_K1 = KINDS
 
+# CALL SPELLINGS (argument-form axis): the same call shape with its arguments handed over in every other way NumPy's signature
+# permits - an optional parameter positionally instead of by keyword (or the reverse), the operands themselves by keyword, the
+# container as a tuple instead of a list, an explicit default. The oracle does not change with the spelling: the merged / assigned
+# operands are x0 and x1 whatever the spelling. Written from NumPy's documented signatures, not from unyt's handlers.
+AF_SPELL = {
+    "concatenate": {"axis_pos": lambda np_, x0, x1: np_.concatenate([x0, x1], 0),
+                    "tuple_axis_kw": lambda np_, x0, x1: np_.concatenate((x0, x1), axis=0),
+                    "axis_none": lambda np_, x0, x1: np_.concatenate([x0, x1], axis=None),
+                    "dtype_kw": lambda np_, x0, x1: np_.concatenate([x0, x1], 0, None, dtype=None)},
+    "stack": {"kw": lambda np_, x0, x1: np_.stack(arrays=[x0, x1]),
+              "axis_pos": lambda np_, x0, x1: np_.stack((x0, x1), 1),
+              "axis_kw": lambda np_, x0, x1: np_.stack([x0, x1], axis=-1)},
+    "vstack": {"kw": lambda np_, x0, x1: np_.vstack(tup=(x0, x1))},
+    "hstack": {"kw": lambda np_, x0, x1: np_.hstack(tup=(x0, x1))},
+    "dstack": {"kw": lambda np_, x0, x1: np_.dstack(tup=(x0, x1))},
+    "column_stack": {"kw": lambda np_, x0, x1: np_.column_stack(tup=(x0, x1))},
+    "block": {"kw": lambda np_, x0, x1: np_.block(arrays=[x0, x1]),
+              "nested": lambda np_, x0, x1: np_.block([[x0], [x1]])},
+    "append": {"kw": lambda np_, x0, x1: np_.append(arr=x0, values=x1),
+               "axis_pos": lambda np_, x0, x1: np_.append(x0, x1, None),
+               "axis_kw": lambda np_, x0, x1: np_.append(x0, values=x1, axis=None)},
+    "where": {"cond_list": lambda np_, x0, x1: np_.where([True, False], x0, x1)},
+    "choose": {"kw": lambda np_, x0, x1: np_.choose(a=np.array([0, 1]), choices=[x0, x1]),
+               "tuple_mode_kw": lambda np_, x0, x1: np_.choose(np.array([0, 1]), (x0, x1), mode="raise"),
+               "out_mode_pos": lambda np_, x0, x1: np_.choose(np.array([0, 1]), [x0, x1], None, "raise")},
+    "select": {"kw": lambda np_, x0, x1: np_.select(condlist=[_mask(2), ~_mask(2)], choicelist=[x0, x1], default=_sel_default(x0)),
+               "tuple": lambda np_, x0, x1: np_.select((_mask(2), ~_mask(2)), (x0, x1), _sel_default(x0))},
+    "select_default": {"kw": lambda np_, x0, x1: np_.select([_mask(2)], [x0], default=x1),
+                       "all_kw": lambda np_, x0, x1: np_.select(condlist=[_mask(2)], choicelist=[x0], default=x1)},
+    "linspace": {"kw": lambda np_, x0, x1: np_.linspace(start=x0, stop=x1, num=3),
+                 "stop_kw": lambda np_, x0, x1: np_.linspace(x0, stop=x1, num=3, endpoint=True)},
+    "geomspace": {"kw": lambda np_, x0, x1: np_.geomspace(start=x0, stop=x1, num=3),
+                  "stop_kw": lambda np_, x0, x1: np_.geomspace(x0, stop=x1, num=3)},
+    "intersect1d": {"kw": lambda np_, x0, x1: np_.intersect1d(ar1=x0, ar2=x1),
+                    "unique_pos": lambda np_, x0, x1: np_.intersect1d(x0, x1, False),
+                    "ar2_kw": lambda np_, x0, x1: np_.intersect1d(x0, ar2=x1, assume_unique=False)},
+    "union1d": {"kw": lambda np_, x0, x1: np_.union1d(ar1=x0, ar2=x1), "ar2_kw": lambda np_, x0, x1: np_.union1d(x0, ar2=x1)},
+    "setdiff1d": {"kw": lambda np_, x0, x1: np_.setdiff1d(ar1=x0, ar2=x1),
+                  "unique_pos": lambda np_, x0, x1: np_.setdiff1d(x0, x1, False)},
+    "isin": {"kw": lambda np_, x0, x1: np_.isin(element=x0, test_elements=x1),
+             "unique_invert_pos": lambda np_, x0, x1: np_.isin(x0, x1, False, False),
+             "test_kw": lambda np_, x0, x1: np_.isin(x0, test_elements=x1, invert=False)},
+    "interp": {"kw": lambda np_, x0, x1: np_.interp(x=x0, xp=x1, fp=np.array([1.0, 2.0])),
+               "xp_kw": lambda np_, x0, x1: np_.interp(x0, xp=x1, fp=np.array([1.0, 2.0]))},
+    "searchsorted": {"kw": lambda np_, x0, x1: np_.searchsorted(a=x0, v=x1),
+                     "side_pos": lambda np_, x0, x1: np_.searchsorted(x0, x1, "left"),
+                     "v_side_kw": lambda np_, x0, x1: np_.searchsorted(x0, v=x1, side="right")},
+    "clip": {"a_kw": lambda np_, x0, x1: np_.clip(x0, a_min=x1, a_max=x1),
+             "all_kw": lambda np_, x0, x1: np_.clip(a=x0, a_min=x1, a_max=x1),
+             "minmax_kw": lambda np_, x0, x1: np_.clip(x0, min=x1, max=x1),
+             "out_pos": lambda np_, x0, x1: np_.clip(x0, x1, x1, None)},
+    "clip_max": {"a_max_kw": lambda np_, x0, x1: np_.clip(x0, x0.min() if hasattr(x0, "units") else None, a_max=x1),
+                 "max_kw": lambda np_, x0, x1: np_.clip(x0, max=x1)},
+    "insert": {"values_kw": lambda np_, x0, x1: np_.insert(x0, 0, values=x1),
+               "kw": lambda np_, x0, x1: np_.insert(arr=x0, obj=0, values=x1),
+               "axis_pos": lambda np_, x0, x1: np_.insert(x0, 0, x1, 0)},
+    "place": {"vals_kw": lambda np_, c, x1: np_.place(c, _mask(2), vals=x1),
+              "kw": lambda np_, c, x1: np_.place(arr=c, mask=_mask(2), vals=x1)},
+    "put": {"v_kw": lambda np_, c, x1: np_.put(c, [0], v=x1),
+            "kw": lambda np_, c, x1: np_.put(a=c, ind=[0], v=x1),
+            "mode_pos": lambda np_, c, x1: np_.put(c, [0], x1, "raise")},
+    "putmask": {"values_kw": lambda np_, c, x1: np_.putmask(c, _mask(2), values=x1),
+                "kw": lambda np_, c, x1: np_.putmask(c, mask=_mask(2), values=x1)},
+    "put_along_axis": {"kw": lambda np_, c, x1: np_.put_along_axis(arr=c, indices=np.array([0]), values=x1, axis=0),
+                       "values_kw": lambda np_, c, x1: np_.put_along_axis(c, np.array([0]), values=x1, axis=0)},
+    "fill_diagonal": {"val_kw": lambda np_, c, x1: np_.fill_diagonal(c, val=x1),
+                      "kw": lambda np_, c, x1: np_.fill_diagonal(a=c, val=x1),
+                      "wrap_pos": lambda np_, c, x1: np_.fill_diagonal(c, x1, False)},
+    # without a mask (the whole of dst is overwritten: the known relabelling defect, whatever the spelling)
+    "copyto": {"casting_pos": lambda np_, c, x1: np_.copyto(c, x1, "same_kind"),
+               "casting_kw": lambda np_, c, x1: np_.copyto(c, x1, casting="same_kind"),
+               "where_true_kw": lambda np_, c, x1: np_.copyto(c, x1, where=True),
+               "where_true_pos": lambda np_, c, x1: np_.copyto(c, x1, "same_kind", True)},
+    # with a mask: every way of handing over casting and where
+    "copyto_where": {"pos": lambda np_, c, x1: np_.copyto(c, x1, "same_kind", _mask(2)),
+                     "casting_pos": lambda np_, c, x1: np_.copyto(c, x1, "same_kind", where=_mask(2)),
+                     "casting_kw": lambda np_, c, x1: np_.copyto(c, x1, casting="same_kind", where=_mask(2)),
+                     "kw_reversed": lambda np_, c, x1: np_.copyto(c, x1, where=_mask(2), casting="unsafe"),
+                     "mask_list_pos": lambda np_, c, x1: np_.copyto(c, x1, "same_kind", [True, False]),
+                     "mask_all_true": lambda np_, c, x1: np_.copyto(c, x1, where=np.array([True, True]))},
+}
+SPELL_K0 = {"quick": ["same", "diffdim"], "thorough": ["same", "diffdim", "dimless", "percent", "barray"]}
+SPELL_K1 = {"quick": ["same", "samedim", "diffdim", "dimless", "percent", "bscalar", "barray", "qlist_diff", "qlist_mixed"],
+            "thorough": [k for k in KINDS if k not in TWIN_KINDS] + ["qlist_bC", "qlist_tup_mixed"]}
+
 
 # call shapes whose second operand may have any length / may be a (1, 2) row next to a (2,) first operand
 AF_ANYLEN = ["concatenate", "concatenate3", "hstack", "intersect1d", "union1d", "setdiff1d", "isin", "searchsorted", "insert", "place",
@@ -870,13 +1071,16 @@ def af_applicable(fname, k0, k1, s1):
     return True
 
 
-def make_af_case(fname, k0, k1, shapes, dims):
+def make_af_case(fname, k0, k1, shapes, dims, spell=None, history=()):
     target = fname in AF_TARGET
     klass, fn, _ = (AF_TARGET if target else AF)[fname]
+    if spell is not None:
+        fn = AF_SPELL[fname][spell]
     s0, s1 = shapes
 
     def h(ctx):
         W = World(ctx, *dims)
+        run_history(ctx, W, history, k0, k1)
         a = W.operand(k0, s0, "p")
         b = W.operand(k1, s1, "q")
         tgt = a.copy("target") if target else a
@@ -884,7 +1088,8 @@ def make_af_case(fname, k0, k1, shapes, dims):
         known = L_COPYLIST if (fname.startswith("copyto") and k1 in QLIST_KINDS) else AF_KNOWN.get(fname)
         judge(ctx, W, f"{fname}({k0},{k1})", fname, res, [tgt, b], klass, known)
         W.flush()
-    return Case(f"C01/af/{fname}/{k0}+{k1}/{shstr(s0)}_{shstr(s1)}", h, bounds="symbolic: elements, scales", budget_s=3000, max_paths=6000,
+    cid = f"C01/af/{fname}/{k0}+{k1}/{shstr(s0)}_{shstr(s1)}" + (f"/as-{spell}" if spell else "") + (f"/after-{hist_id(history)}" if history else "")
+    return Case(cid, h, bounds="symbolic: elements, scales", budget_s=3000, max_paths=6000,
                 weight=4, conform=fname != "geomspace")
 
 
@@ -926,12 +1131,13 @@ def assign_applicable(k1, s1):
     return True
 
 
-def make_assign_case(group, form, k0, k1, table, dims):
+def make_assign_case(group, form, k0, k1, table, dims, history=()):
     fn, s1 = table[form][:2]
     s0 = table[form][2] if len(table[form]) > 2 else (2,)
 
     def h(ctx):
         W = World(ctx, *dims)
+        run_history(ctx, W, history, k0, k1)
         a = W.operand(k0, s0, "p")
         b = W.operand(k1, s1, "q")
         tgt = a.copy("target")
@@ -953,12 +1159,18 @@ def make_assign_case(group, form, k0, k1, table, dims):
                         And(sc >= 1 - 2e-9, sc <= 1 + 2e-9))
         judge(ctx, W, tag, group, res, [tgt, b], "assign", known)
         W.flush()
-    return Case(f"C01/{group}/{form}/{k0}+{k1}", h, bounds="symbolic: elements, scales", budget_s=3000, max_paths=6000, weight=3)
+    return Case(f"C01/{group}/{form}/{k0}+{k1}" + (f"/after-{hist_id(history)}" if history else ""), h, bounds="symbolic: elements, scales",
+                budget_s=3000, max_paths=6000, weight=3)
 
 
 CTOR = {
     "array": lambda ua, v, reg: ua(v),
     "array_reg": lambda ua, v, reg: ua(v, registry=reg),
+    # other spellings of the same two calls (argument-form axis)
+    "array_kw": lambda ua, v, reg: ua(input_array=v),
+    "array_units_none": lambda ua, v, reg: ua(v, None),
+    "array_reg_pos": lambda ua, v, reg: ua(v, None, reg),
+    "array_reg_kw": lambda ua, v, reg: ua(input_array=v, units=None, registry=reg),
 }
 
 
@@ -983,6 +1195,13 @@ CONVERT = {
     "in_units": lambda q, u: q.in_units(u),
     "to_value": lambda q, u: q.to_value(u),
     "convert_to_units": lambda q, u: q.convert_to_units(u),
+}
+# the same four entry points with the target handed over by keyword / with the optional parameters spelled out (argument-form axis)
+CONVERT_SPELL = {
+    "to": {"kw": lambda q, u: q.to(units=u), "equiv_pos": lambda q, u: q.to(u, None)},
+    "in_units": {"kw": lambda q, u: q.in_units(units=u), "equiv_kw": lambda q, u: q.in_units(u, equivalence=None)},
+    "to_value": {"kw": lambda q, u: q.to_value(units=u), "equiv_pos": lambda q, u: q.to_value(u, None)},
+    "convert_to_units": {"kw": lambda q, u: q.convert_to_units(units=u), "equiv_pos": lambda q, u: q.convert_to_units(u, None)},
 }
 
 
@@ -1014,6 +1233,32 @@ def make_convert_case(entry, cat, as_string):
         W.flush()
     return Case(f"C01/convert/{entry}/{'str' if as_string else 'unit'}", h, bounds=f"{len(cat)}x{len(cat)} ordered dimension pairs",
                 budget_s=3000, max_paths=2000, weight=20, conform=False)
+
+
+def make_convert_pair_case(entry, k0, k1, dims, spell=None, as_string=False, history=()):
+    """q of kind k0 converted onto the unit of an operand of kind k1 (Unit object or its string), optionally in another call
+    spelling and after earlier calls on the same unit pair"""
+    fn = CONVERT_SPELL[entry][spell] if spell else CONVERT[entry]
+
+    def h(ctx):
+        W = World(ctx, *dims)
+        run_history(ctx, W, history, k0, k1)
+        a = W.operand(k0, (2,), "p")
+        b = W.operand(k1, (), "q")
+        tu = b.value.units
+        t = Opd("target-unit", tu, b.dim, [], [], False, ())
+        facts = (str(tu), tu.dimensions, tu.base_value, tu.base_offset)
+        tag = f"{entry}[{k0}>{k1}]"
+        res = xcall(fn, a.value, str(tu) if as_string else tu)
+        judge(ctx, W, tag, entry, res, [a, t], "merge")
+        if res[0] == "raise":
+            now = (str(tu), tu.dimensions, tu.base_value, tu.base_offset)
+            ctx.require(f"{tag}: target unit unchanged after raise",
+                        And(now[0] == facts[0], now[1] == facts[1], exact_eq(now[2], facts[2]), exact_eq(now[3], facts[3])))
+        W.flush()
+    cid = (f"C01/convert/{entry}/pair/{k0}>{k1}/{'str' if as_string else 'unit'}" + (f"/as-{spell}" if spell else "")
+           + (f"/after-{hist_id(history)}" if history else ""))
+    return Case(cid, h, bounds="symbolic: elements, scales", budget_s=600, weight=2)
 
 
 def make_convert_twin_case(entry, dims):
@@ -1069,6 +1314,61 @@ def make_unit_addsub_case(cat):
 
 
 # ------------------------------------------------------------------------------------------------ case list
+
+# history axis: operand-kind pairs of the call under test (the pairs whose verdict differs between operations: a dimensionless /
+# bare operand is accepted by ordering comparisons and by the free keys, refused elsewhere; another dimension is answered by the
+# ==/!= constant and by the free keys, refused elsewhere; same spelling in another registry) ...
+HIST_UF_PAIRS = {
+    "quick": [("same", "dimless"), ("same", "percent"), ("same", "bscalar"), ("dimless", "same"), ("same", "diffdim"),
+              ("same", "twin_dim"), ("same", "qlist_diff")],
+    "thorough": [("same", "dimless"), ("same", "percent"), ("same", "bscalar"), ("same", "barray"), ("dimless", "same"),
+                 ("percent", "same"), ("bscalar", "same"), ("barray", "same"), ("same", "diffdim"), ("diffdim", "same"),
+                 ("same", "samedim"), ("same", "twin_dim"), ("twin_dim", "same"), ("same", "twin_scale"), ("redim_old", "redim_new"),
+                 ("same", "qlist_diff"), ("same", "qlist_same"), ("same", "qlist_mixed"), ("same", "blist"), ("diffdim", "percent")],
+}
+# ... and the earlier calls: an ordering comparison (call and operator form, both operand orders), ==, a free key, a logical key,
+# a commensurability-requiring key on the same pair (refused, or let through by the zero exemption), on the left unit with itself
+# and with a commensurable partner, a conversion attempt and a merging array function
+HIST_UF_MAIN = [(("uf", "less", "call", "same"),), (("uf", "multiply", "call", "same"),)]
+HIST_UF = HIST_UF_MAIN + [
+    (("uf", "greater_equal", "op", "same"),), (("uf", "less", "call", "swap"),), (("uf", "equal", "call", "same"),),
+    (("uf", "logical_and", "call", "same"),), (("uf", "add", "call", "same"),), (("uf", "add", "call", "zero"),),
+    (("uf", "add", "call", "self"),), (("uf", "maximum", "call", "comm"),), (("to", "swap"),), (("af", "concatenate", "same"),),
+    (("uf", "add", "op", "comm"), ("uf", "greater", "call", "same")), (("uf", "add", "call", "tscale"),), (("to", "tscale"),),
+]
+HIST_UF_PAIRS_MAIN = [("same", "dimless"), ("same", "bscalar"), ("same", "diffdim"), ("bscalar", "same")]
+HIST_UF_QUICK_KEYS = ("add", "maximum", "less")
+HIST_AF_PAIRS = {"quick": [("same", "diffdim"), ("same", "dimless"), ("same", "twin_dim")],
+                 "thorough": [("same", "diffdim"), ("diffdim", "same"), ("same", "dimless"), ("dimless", "same"), ("same", "percent"),
+                              ("same", "twin_dim"), ("same", "qlist_diff"), ("barray", "same")]}
+HIST_SET_PAIRS = {"quick": [("same", "diffdim"), ("same", "percent"), ("same", "twin_dim")],
+                  "thorough": [("same", "diffdim"), ("same", "percent"), ("same", "twin_dim"), ("dimless", "same"), ("same", "qlist_diff"),
+                               ("diffdim", "same"), ("same", "bscalar")]}
+CONVERT_PAIRS = {"quick": [("same", "samedim"), ("same", "diffdim"), ("same", "dimless"), ("dimless", "same"), ("same", "twin_dim")],
+                 "thorough": [("same", "samedim"), ("same", "diffdim"), ("diffdim", "same"), ("same", "dimless"), ("same", "percent"),
+                              ("dimless", "same"), ("percent", "diffdim"), ("same", "twin_dim"), ("twin_dim", "same"), ("same", "twin_scale")]}
+HIST_CONVERT = {"quick": [(("uf", "less", "call", "same"),), (("uf", "multiply", "call", "same"),), (("to", "comm"),), (("to", "self"),),
+                          (("to", "tscale"),)],
+                "thorough": [(("uf", "less", "call", "same"),), (("uf", "multiply", "call", "same"),), (("uf", "equal", "call", "swap"),),
+                             (("to", "comm"),), (("to", "self"),), (("af", "concatenate", "comm"),), (("uf", "add", "call", "zero"),),
+                             (("to", "tscale"),), (("uf", "add", "call", "tscale"),)]}
+CTOR_SPELL_KINDS = ["blist", "qlist_same", "qlist_diff", "qlist_mixed", "qlist_bC", "qlist_tup_mixed", "qlist_nest_mixed"]
+
+
+def hist_ok(hist, k0, k1):
+    """'tscale' steps only before a call whose operands share the spelling xa (same + twin_dim)"""
+    return not any(st[-1] == "tscale" for st in hist) or (k0, k1) == ("same", "twin_dim")
+
+
+def hist_af(fname, tier):
+    """earlier calls before an array-function call: a comparison / a free key on the same unit pair, the same call shape on
+    commensurable operands (other unit of the dimension; the unit with itself), a conversion between commensurable units"""
+    h = [(("uf", "less", "call", "same"),), (("af", fname, "comm"),), (("af", fname, "self"),), (("af", fname, "tscale"),)]
+    if tier != "quick":
+        h += [(("uf", "multiply", "call", "same"),), (("to", "comm"),), (("uf", "equal", "call", "swap"),),
+              (("af", "concatenate" if fname != "concatenate" else "where", "comm"),)]
+    return h
+
 
 def _kind_pairs():
     for k0, k1 in itertools.product(KINDS, KINDS):
@@ -1174,6 +1474,64 @@ def cases(tier, mods):
                 for shp in af_shapes(fname, k1):
                     if af_applicable(fname, k0, k1, shp[1]):
                         out.append(make_af_case(fname, k0, k1, shp, dims))
+        # argument-form axis: every other spelling of the call shape
+        for spell in AF_SPELL.get(fname, ()):
+            for k0 in SPELL_K0[tier]:
+                for shp in (AF_TARGET if fname in AF_TARGET else AF)[fname][2]:
+                    for k1 in SPELL_K1[tier]:
+                        if af_applicable(fname, k0, k1, shp[1]) and not (k1 in SEQ_NEW and shp not in af_shapes(fname, k1)):
+                            out.append(make_af_case(fname, k0, k1, shp, dims, spell=spell))
+        # history axis: the call (canonical spelling, and in the thorough tier every spelling) after earlier calls on the same units
+        shp0 = (AF_TARGET if fname in AF_TARGET else AF)[fname][2][0]
+        for k0, k1 in HIST_AF_PAIRS[tier]:
+            if not af_applicable(fname, k0, k1, shp0[1]):
+                continue
+            for hist in hist_af(fname, tier):
+                if not hist_ok(hist, k0, k1):
+                    continue
+                out.append(make_af_case(fname, k0, k1, shp0, dims, history=hist))
+                if not quick and (k0, k1) == ("same", "diffdim") and hist[0][:2] in (("uf", "less"), ("af", fname)):
+                    for spell in AF_SPELL.get(fname, ()):
+                        out.append(make_af_case(fname, k0, k1, shp0, dims, spell=spell, history=hist))
+    # history axis for the ufunc keys: (earlier call) x (key under test) on one unit pair
+    for name in names:
+        if name not in REQUIRE:
+            continue
+        done = set()
+
+        def add_hist(k0, k1, s0, forms, hist, name=name, done=done):
+            if hist == (("uf", name, "call", "same"),) or (k0, k1, s0, hist) in done or not hist_ok(hist, k0, k1):
+                return  # (the forms of one case already follow each other in one path)
+            done.add((k0, k1, s0, hist))
+            out.append(make_ufunc_case(name, k0, k1, s0, shape_of(k1, ()), *dims, forms=forms, history=hist))
+        if quick:
+            # every key after the two main earlier calls on the pairs that decide; three keys (one per unit rule: sum-like,
+            # min/max-like, comparison) after every earlier call on every pair; the in-place / at / out= forms on arrays
+            for k0, k1 in HIST_UF_PAIRS_MAIN:
+                for hist in HIST_UF_MAIN:
+                    add_hist(k0, k1, (), ["call", "op"], hist)
+            if name in HIST_UF_QUICK_KEYS:
+                for k0, k1 in HIST_UF_PAIRS["quick"]:
+                    for hist in HIST_UF:
+                        add_hist(k0, k1, (), ["call", "op"], hist)
+            if name in INPLACE or name == "maximum":
+                for k0, k1 in (("same", "bscalar"), ("same", "dimless"), ("same", "diffdim")):
+                    for hist in HIST_UF_MAIN:
+                        add_hist(k0, k1, (2,), ["call", "iop", "at", "out_b"], hist)
+        else:
+            for k0, k1 in HIST_UF_PAIRS["thorough"]:
+                for hist in HIST_UF:
+                    add_hist(k0, k1, (), ["call", "op", "out_q", "outer"], hist)
+                    if k0 in QUANTITY_KINDS and hist in HIST_UF_MAIN and (name in INPLACE or name in ("maximum", "less", "hypot")):
+                        add_hist(k0, k1, (2,), ["call", "iop", "at", "out_b"], hist)
+    for form in SETITEM_CORE:
+        for k0, k1 in HIST_SET_PAIRS[tier]:
+            if not assign_applicable(k1, SETITEM[form][1]):
+                continue
+            for hist in [(("uf", "less", "call", "same"),), (("uf", "multiply", "call", "same"),), (("setitem", form, "comm"),),
+                         (("setitem", form, "self"),), (("to", "comm"),), (("setitem", form, "tscale"),), (("to", "tscale"),)]:
+                if hist_ok(hist, k0, k1):
+                    out.append(make_assign_case("setitem", form, k0, k1, SETITEM, dims, history=hist))
     for form in SETITEM:
         for k0, k1 in itertools.product(QUANTITY_KINDS if form in SETITEM_CORE else ("same", "diffdim", "dimless", "percent"), KINDS):
             if assign_applicable(k1, SETITEM[form][1]) and twin_ok(k0, k1):
@@ -1187,10 +1545,24 @@ def cases(tier, mods):
                 out.append(make_assign_case("method", form, k0, k1, METHODS, dims))
     for form in CTOR:
         for k1 in ["blist"] + QLIST_KINDS:
+            if quick and form not in ("array", "array_reg") and k1 not in CTOR_SPELL_KINDS:
+                continue
             out.append(make_ctor_case(form, k1, dims))
     for entry in CONVERT:
         for as_string in (True, False):
             out.append(make_convert_case(entry, cat, as_string))
         out.append(make_convert_twin_case(entry, dims))
+        # argument-form and history axes of the conversion entry points
+        for k0, k1 in CONVERT_PAIRS[tier]:
+            for as_string in (False, True):
+                if as_string and (k1 in TWIN_KINDS or k0 in TWIN_KINDS):
+                    continue  # a string names the unit of the array's own registry
+                for spell in [None] + list(CONVERT_SPELL[entry]):
+                    if quick and as_string and spell != "kw":
+                        continue
+                    out.append(make_convert_pair_case(entry, k0, k1, dims, spell=spell, as_string=as_string))
+            for hist in HIST_CONVERT[tier]:
+                if hist_ok(hist, k0, k1):
+                    out.append(make_convert_pair_case(entry, k0, k1, dims, history=hist))
     out.append(make_unit_addsub_case(cat))
     return out
